@@ -202,7 +202,15 @@ QUERY_BASES = [b"a=1&b=%E4%B8%AD&c=+x", b"k", b""]
 QUERY_HOSTILE = [b"%", b"%z", b"%ff", b"\xff", b"&", b"=", b";", b"[", b"]", b"+", b"#", b"%00", b"\xe4\xb8", b"\x00", b"\r", b"\n", b"\x7f", b" "]
 
 
+REQUEST_TARGETS = ["*", "[x", "//[x", "x]:y", "http://other.example:x/p", "//host:port/p", ":80", "@", "?", "#", "[::1", "a:b", "//:x"]
+
+
 def path_variants(tier):
+    yield from REQUEST_TARGETS  # request targets that are not origin-form (a server hands the text on as the path)
+    yield from _path_variants(tier)
+
+
+def _path_variants(tier):
     seen = set()
     for b in PATH_BASES:
         for i in range(len(b) + 1):
@@ -580,6 +588,25 @@ def run_shard(desc, tier):
                     for entry, exc in header_accessors(req):
                         report(r, entry, iface, exc, {"kind": "path", "path": path}, f"path {path!r:.60}")
                 probe_dispatch(r, apps, areq, {"kind": "path", "path": path}, f"path {path!r:.60}")
+                # the same request target from a client that sends no Host header (HTTP/1.0), to a server on a port that is not
+                # the default one - and to one that knows no address of its own
+                for server in (("testserver", 8000), None):
+                    areq0 = SV.AReq(path=path, headers=[], server=server or ("testserver", 80))
+                    try:
+                        from baize.wsgi import Request as WReq0
+                        from baize.asgi import Request as AReq0
+                        sc0 = SV.to_scope(areq0)
+                        if server is None:
+                            sc0["server"] = None
+                        reqs0 = {"asgi": AReq0(sc0)}
+                        if server is not None:
+                            reqs0["wsgi"] = WReq0(SV.to_environ(areq0))
+                    except UnicodeEncodeError:
+                        reqs0 = {}
+                    for iface, req in reqs0.items():
+                        r.count("evaluations")
+                        for entry, exc in header_accessors(req):
+                            report(r, entry, iface, exc, {"kind": "path", "path": path, "no_host": True, "server": list(server) if server else None}, f"path {path!r:.60} without a Host header (server {server})")
                 # the raw WSGI view of a path with undecodable bytes (PATH_INFO is Latin-1 text of arbitrary bytes)
             for raw in ("/\xff", "/a\xe4\xb8", "/\xc3\x28/x", "/files/\xff.txt"):
                 env = SV.to_environ(SV.AReq(path="/"))
@@ -636,6 +663,24 @@ def run_shard(desc, tier):
                 # every cut of the body in two: a field value, a name, a header line arrives in pieces
                 for cut in range(1, len(body)):
                     probe_body(r, ctype, body, accessor, chunks=[body[:cut], body[cut:]])
+        # bodies that announce a content coding: a well-formed gzip/deflate member, cut at every position, with a flipped byte, with
+        # trailing junk (whatever the library makes of the header: a value, or a 4xx)
+        import gzip as _gz
+        import zlib as _zl
+        for ctype, plain, accessor in (("application/json", JSON_BASE, "json"), ("application/x-www-form-urlencoded", FORM_BASE, "form"), ("text/plain", b"hello", "body")):
+            for coding, packed in (("gzip", _gz.compress(plain, mtime=0)), ("x-gzip", _gz.compress(plain, mtime=0)), ("deflate", _zl.compress(plain)), ("br", b"\x0b\x02\x80hello\x03"), ("gzip, deflate", _gz.compress(plain, mtime=0)), ("identity", plain)):
+                variants = [packed, packed + b"junk", b""] + [packed[:i] for i in range(1, len(packed))] + [packed[:i] + bytes([packed[i] ^ 0xFF]) + packed[i + 1:] for i in range(0, len(packed), 3)]
+                for body in variants:
+                    areq = SV.AReq(method="POST", headers=[("Content-Type", ctype), ("Content-Encoding", coding)], chunks=[body[:5], body[5:]])
+                    for iface in ("wsgi", "asgi"):
+                        r.count("evaluations")
+                        r.count("distinct_nontrivial")
+                        try:
+                            exc = access_body(iface, areq, accessor)
+                        except UnicodeEncodeError:
+                            continue
+                        if exc is not None and not allowed(exc):
+                            report(r, accessor, iface, exc, {"kind": "coded-body", "ctype": ctype, "coding": coding, "body": body, "accessor": accessor}, f"Content-Encoding {coding!r} with a {len(body)}-byte body ({ctype})")
         r.sample({"special": "5000-digit number, deep nesting, invalid UTF-8, 16 charsets, 11 boundary variants, headers without colon"})
     elif kind == "overlap":
         # what a client sends is also *when* it sends it: two requests with valid (and invalid) Range headers in flight at once
@@ -732,6 +777,12 @@ def replay(w):
             probe_body(r, w["ctype"], b, w["accessor"], chunks=[b[:1], b[1:len(b) // 2], b"", b[len(b) // 2:]])
     elif k == "vanished":
         vanished(r)
+    elif k == "coded-body":
+        areq = SV.AReq(method="POST", headers=[("Content-Type", w["ctype"]), ("Content-Encoding", w["coding"])], chunks=[w["body"][:5], w["body"][5:]])
+        for iface in ("wsgi", "asgi"):
+            exc = access_body(iface, areq, w["accessor"])
+            if exc is not None and not allowed(exc):
+                report(r, w["accessor"], iface, exc, w, "coded body")
     elif k == "overlap":
         r = run_shard(("overlap", w["label"]), "quick")
     elif k == "sinks":
@@ -758,7 +809,18 @@ def replay(w):
         t = Tree()
         try:
             apps = build_apps(t.dir)
-            if k == "path":
+            if k == "path" and w.get("no_host"):
+                from baize.wsgi import Request as WReq0
+                from baize.asgi import Request as AReq0
+                server = tuple(w["server"]) if w.get("server") else None
+                areq0 = SV.AReq(path=w["path"], headers=[], server=server or ("testserver", 80))
+                sc0 = SV.to_scope(areq0)
+                if server is None:
+                    sc0["server"] = None
+                for iface, req in {"asgi": AReq0(sc0), **({"wsgi": WReq0(SV.to_environ(areq0))} if server else {})}.items():
+                    for entry, exc in header_accessors(req):
+                        report(r, entry, iface, exc, w, "path without Host")
+            elif k == "path":
                 areq = SV.AReq(path=w["path"], headers=[("Host", "example.com")])
                 try:
                     for iface, req in make_requests(areq).items():
